@@ -1,5 +1,348 @@
 package main
 
-import "verifharness/pkg/vh"
+import (
+	"fmt"
+	"sort"
+	"strings"
 
-func emitCoq(run *vh.Run, all []*obs) {}
+	"github.com/samsarahq/thunder/federation"
+	"github.com/samsarahq/thunder/graphql"
+	"verifharness/pkg/fedgen"
+	"verifharness/pkg/vh"
+)
+
+// ---- the gateway's schema as a Coq gschema term (read off the implementation's SchemaWithFederationInfo) ----
+
+func rtypeOf(t graphql.Type) string {
+	switch x := t.(type) {
+	case *graphql.NonNull:
+		return rtypeOf(x.Type)
+	case *graphql.List:
+		return rtypeOf(x.Type)
+	case *graphql.Object:
+		return "(RObj " + vh.CoqString(x.Name) + ")"
+	case *graphql.Union:
+		return "(RUnion " + vh.CoqString(x.Name) + ")"
+	}
+	return "RScalar"
+}
+
+func coqStrings(xs []string) string {
+	ys := make([]string, len(xs))
+	for i, x := range xs {
+		ys[i] = vh.CoqString(x)
+	}
+	return vh.CoqList(ys)
+}
+
+type schemaInfo struct {
+	term     string
+	explicit bool
+}
+
+func gschemaCoq(types *federation.SchemaWithFederationInfo, c *Case) schemaInfo {
+	all := map[graphql.Type]string{}
+	federation.CollectTypes(types.Schema.Query, all)
+	var objs []*graphql.Object
+	var unions []*graphql.Union
+	for t, name := range all {
+		if strings.HasPrefix(name, "__") {
+			continue
+		}
+		switch x := t.(type) {
+		case *graphql.Object:
+			objs = append(objs, x)
+		case *graphql.Union:
+			unions = append(unions, x)
+		}
+	}
+	sort.Slice(objs, func(i, j int) bool { return objs[i].Name < objs[j].Name })
+	sort.Slice(unions, func(i, j int) bool { return unions[i].Name < unions[j].Name })
+	var objNames, unionTerms, fieldTerms, fkeyTerms, selTerms, keyed []string
+	explicit := true
+	for _, o := range objs {
+		objNames = append(objNames, o.Name)
+		var fns []string
+		for fn := range o.Fields {
+			fns = append(fns, fn)
+		}
+		sort.Strings(fns)
+		fk := map[string][]string{}
+		for _, fn := range fns {
+			if strings.HasPrefix(fn, "__") {
+				continue
+			}
+			f := o.Fields[fn]
+			var owners []string
+			if info := types.Fields[f]; info != nil {
+				for s, ok := range info.Services {
+					if ok {
+						owners = append(owners, s)
+					}
+				}
+			}
+			sort.Strings(owners)
+			fieldTerms = append(fieldTerms, fmt.Sprintf("(%s, %s, %s, %s)", vh.CoqString(o.Name), vh.CoqString(fn), rtypeOf(f.Type), coqStrings(owners)))
+			for s := range f.FederatedKey {
+				fk[s] = append(fk[s], fn)
+			}
+			if len(owners) > 1 && fn != "id" && fn != "org" && fn != "val" && fn != "tag" && fn != "_federation" && c.Selector[o.Name+"."+fn] == "" {
+				explicit = false
+			}
+		}
+		var svcs []string
+		for s := range fk {
+			svcs = append(svcs, s)
+		}
+		sort.Strings(svcs)
+		for _, s := range svcs {
+			sort.Strings(fk[s])
+			fkeyTerms = append(fkeyTerms, fmt.Sprintf("(%s, %s, %s)", vh.CoqString(o.Name), vh.CoqString(s), coqStrings(fk[s])))
+		}
+	}
+	for _, u := range unions {
+		var ms []string
+		for m := range u.Types {
+			ms = append(ms, m)
+		}
+		sort.Strings(ms)
+		unionTerms = append(unionTerms, "("+vh.CoqString(u.Name)+", "+coqStrings(ms)+")")
+	}
+	var sk []string
+	for k := range c.Selector {
+		sk = append(sk, k)
+	}
+	sort.Strings(sk)
+	for _, k := range sk {
+		parts := strings.SplitN(k, ".", 2)
+		selTerms = append(selTerms, fmt.Sprintf("(%s, %s, %s)", vh.CoqString(parts[0]), vh.CoqString(parts[1]), vh.CoqString(c.Selector[k])))
+	}
+	useKey := false
+	for _, s := range c.Services {
+		useKey = useKey || s.UseKey
+	}
+	if useKey {
+		for _, n := range fedgen.ObjNames {
+			keyed = append(keyed, n)
+		}
+	}
+	return schemaInfo{term: fmt.Sprintf("(mk_gschema %s %s %s %s %s %s)", coqStrings(objNames), vh.CoqList(unionTerms), vh.CoqList(fieldTerms),
+		vh.CoqList(fkeyTerms), vh.CoqList(selTerms), coqStrings(keyed)), explicit: explicit}
+}
+
+// ---- queries ----
+
+func dirsCoq(d *Dir, vars map[string]bool) string {
+	if d == nil {
+		return "[]"
+	}
+	v := d.Val
+	if d.Var != "" {
+		v = vars[d.Var]
+	}
+	return "[(" + vh.CoqString(d.Name) + ", " + vh.CoqBool(v) + ")]"
+}
+
+func argsJSON(args []KV) map[string]interface{} {
+	m := map[string]interface{}{}
+	for _, kv := range args {
+		m[kv.K] = jsonArg(kv.V)
+	}
+	return m
+}
+
+type nodePrinter struct {
+	c      *Case
+	frags  map[string]FragDef
+	fields map[string]fedgen.Field
+	rets   map[string]fedgen.Ret
+	bad    bool
+}
+
+// selsCoq prints a structured selection list on type typ.
+func (p *nodePrinter) selsCoq(typ string, sels []Sel) string {
+	var xs []string
+	for _, s := range sels {
+		switch {
+		case s.Spread != "":
+			f := p.frags[s.Spread]
+			xs = append(xs, "NFrag "+vh.CoqString(f.On)+" [] "+p.selsCoq(p.innerType(typ, f.On), f.Subs))
+		case s.On != "":
+			xs = append(xs, "NFrag "+vh.CoqString(s.On)+" "+dirsCoq(s.Dir, p.c.Vars)+" "+p.selsCoq(p.innerType(typ, s.On), s.Subs))
+		default:
+			argkey := ""
+			sub := "[]"
+			if s.Name != "__typename" && s.Name != "id" && s.Name != "org" && s.Name != "val" && s.Name != "tag" {
+				f, ok := p.fields[typ+"."+s.Name]
+				if !ok {
+					p.bad = true
+				} else {
+					ak, err := fedgen.CanonArgsFromJSON(f.Args, argsJSON(s.Args))
+					if err != nil {
+						p.bad = true
+					}
+					argkey = ak
+					switch f.Ret.Kind {
+					case "obj", "union":
+						sub = p.selsCoq(f.Ret.Target, s.Subs)
+					case "leaf":
+						sub = p.selsCoq("Leaf", s.Subs)
+					}
+				}
+			}
+			xs = append(xs, fmt.Sprintf("NField %s %s %s %s %s %s %s", vh.CoqString(s.Alias), vh.CoqString(s.Name), vh.CoqJSON(argsJSON(s.Args)),
+				vh.CoqString(argkey), dirsCoq(s.Dir, p.c.Vars), vh.CoqBool(len(s.Subs) > 0), sub))
+		}
+	}
+	return vh.CoqList(xs)
+}
+
+// innerType: inside a fragment on an object type the selections are on that object; a fragment on a union
+// (or on the same type) keeps the current type.
+func (p *nodePrinter) innerType(cur, on string) string {
+	if _, ok := fedgen.ObjTypes[on]; ok {
+		return on
+	}
+	return cur
+}
+
+// ---- the implementation's structures ----
+
+func goDirs(ds []*graphql.Directive) string {
+	var xs []string
+	for _, d := range ds {
+		v := false
+		if m, ok := d.Args.(map[string]interface{}); ok {
+			v, _ = m["if"].(bool)
+		}
+		xs = append(xs, "("+vh.CoqString(d.Name)+", "+vh.CoqBool(v)+")")
+	}
+	return vh.CoqList(xs)
+}
+
+func goArgs(m map[string]interface{}) string {
+	if m == nil {
+		return "(JObj [])"
+	}
+	j, err := canonJSON(m)
+	if err != nil {
+		return "(JObj [])"
+	}
+	return vh.CoqJSON(j)
+}
+
+func goSelSet(ss *graphql.SelectionSet, withDirs bool) string {
+	if ss == nil {
+		return "[]"
+	}
+	var xs []string
+	for _, s := range ss.Selections {
+		dirs := "[]"
+		if withDirs {
+			dirs = goDirs(s.Directives)
+		}
+		xs = append(xs, fmt.Sprintf("NField %s %s %s \"\" %s %s %s", vh.CoqString(s.Alias), vh.CoqString(s.Name), goArgs(s.UnparsedArgs), dirs,
+			vh.CoqBool(s.SelectionSet != nil), goSelSet(s.SelectionSet, withDirs)))
+	}
+	for _, f := range ss.Fragments {
+		dirs := "[]"
+		if withDirs {
+			dirs = goDirs(f.Directives)
+		}
+		xs = append(xs, "NFrag "+vh.CoqString(f.On)+" "+dirs+" "+goSelSet(f.SelectionSet, withDirs))
+	}
+	return vh.CoqList(xs)
+}
+
+func goPlan(p *federation.Plan) string {
+	var steps []string
+	for _, s := range p.Path {
+		if s.Kind == federation.KindField {
+			steps = append(steps, "SField "+vh.CoqString(s.Name))
+		} else {
+			steps = append(steps, "SType "+vh.CoqString(s.Name))
+		}
+	}
+	var after []string
+	for _, a := range p.After {
+		after = append(after, goPlan(a))
+	}
+	return fmt.Sprintf("(Plan %s %s %s %s %s)", vh.CoqList(steps), vh.CoqString(p.Service), vh.CoqString(p.Type), goSelSet(p.SelectionSet, true), vh.CoqList(after))
+}
+
+// ---- the world ----
+
+func avalCoq(v interface{}, ret fedgen.Ret) string {
+	switch x := v.(type) {
+	case nil:
+		return "ANull"
+	case []interface{}:
+		xs := make([]string, len(x))
+		for i, e := range x {
+			xs[i] = avalCoq(e, ret)
+		}
+		return "(AList " + vh.CoqList(xs) + ")"
+	case int64:
+		return "(AScalar (JNum " + vh.CoqZ(x) + "))"
+	case bool:
+		return "(AScalar (JBool " + vh.CoqBool(x) + "))"
+	case string:
+		if ret.Kind == "enum" && ret.Ptr {
+			return "(AScalar (JNum " + vh.CoqZ(fedgen.ColorValue(x)) + "))"
+		}
+		return "(AScalar (JStr " + vh.CoqString(x) + "))"
+	case fedgen.Ref:
+		return "(ARef " + vh.CoqString(x.Type) + " " + vh.CoqZ(x.Id) + ")"
+	case fedgen.LeafV:
+		return "(ALeaf " + vh.CoqZ(x.Val) + " " + vh.CoqString(x.Tag) + ")"
+	}
+	panic(fmt.Sprintf("avalCoq %T", v))
+}
+
+func worldCoq(w *fedgen.World, fields map[string]fedgen.Field) (calls, orgs string) {
+	snap := w.Snapshot()
+	var keys []string
+	for k := range snap {
+		keys = append(keys, k)
+	}
+	sort.Strings(keys)
+	var cs []string
+	for _, k := range keys {
+		parts := strings.SplitN(k, "|", 4)
+		var id int64
+		fmt.Sscan(parts[1], &id)
+		f := fields[parts[0]+"."+parts[2]]
+		cs = append(cs, fmt.Sprintf("(%s, %s, %s, %s, %s)", vh.CoqString(parts[0]), vh.CoqZ(id), vh.CoqString(parts[2]), vh.CoqString(parts[3]), avalCoq(snap[k], f.Ret)))
+	}
+	var os []string
+	for _, n := range fedgen.ObjNames {
+		for id := int64(0); id < 4; id++ {
+			os = append(os, fmt.Sprintf("(%s, %s, %s)", vh.CoqString(n), vh.CoqZ(id), vh.CoqZ(w.Org(n, id))))
+		}
+	}
+	return vh.CoqList(cs), vh.CoqList(os)
+}
+
+func emitCoq(run *vh.Run, all []*obs) {
+	const shard = 40
+	var terms []string
+	start := 0
+	flush := func() {
+		if len(terms) == 0 {
+			return
+		}
+		run.WriteCasesV(fmt.Sprintf("cases_%d.v", start), []string{"Lib.Json", "Federation.Normalize", "Federation.Planner", "Federation.Executor", "Federation.Check06"},
+			"", "mismatches_from_sparse", 0, terms)
+		start += len(terms)
+		terms = nil
+	}
+	for _, ob := range all {
+		if ob.coq != "" {
+			terms = append(terms, fmt.Sprintf("(%d, %s)", ob.idx, ob.coq))
+			if len(terms) >= shard {
+				flush()
+			}
+		}
+	}
+	flush()
+}
